@@ -97,6 +97,14 @@ def run(ctx):
             cand.append([(c, "eintr", 0), (c + 1, "eintr", 0), (c + 2, "eintr", 0)])
             scripts += cand
         scripts.append("allone")
+        # "EINTR any number of times": long runs of interruptions inside one _write_all, in a row and alternating with one byte of
+        # progress, at the first, the last and a few other calls (the per-call loop has no state that could count them)
+        sites = sorted(set([1, 2, 3, ncalls - 1, ncalls] + [rng.randrange(1, ncalls + 1) for _ in range(2 if ctx.quick() else 8)]))
+        for c in sites:
+            for run_len in ((16, 200) if ctx.quick() else (8, 15, 16, 17, 64, 200, 1000)):
+                scripts.append([(c + i, "eintr", 0) for i in range(run_len)])
+                if bufs[c - 1] > run_len:
+                    scripts.append([(c + i, "eintr", 0) if i % 2 == 0 else (c + i, "partial", 1) for i in range(2 * run_len)])
         # multi-fault behaviours from TLC -simulate on the scaled model: map (call k -> outcome)
         open(os.path.join(mwd, "S.cfg"), "w").write(base.replace("VIEW NoHist\n", "INVARIANT DumpHist\n") % (4, "TRUE", "TRUE"))
         open(os.path.join(mwd, "S.tla"), "w").write(open(os.path.join(mwd, "W.tla")).read().replace("MODULE W", "MODULE S"))
@@ -121,9 +129,9 @@ def run(ctx):
             if fl:
                 scripts.append(fl)
         if ctx.quick() and len(scripts) > 260:
-            keep = scripts[:]
+            keep = [x for x in scripts if x == "allone" or len(x) < 16]
             rng.shuffle(keep)
-            scripts = keep[:260]
+            scripts = keep[:260] + [x for x in scripts if x != "allone" and len(x) >= 16]
         for si, sc in enumerate(scripts):
             name = "f%s_%d" % (comp, si)
             path, evs = run_case(b, wd, name, comp, [] if sc == "allone" else sc, allone=(sc == "allone"))
